@@ -272,6 +272,12 @@ pub fn check(case: &C03Case, st: &mut Stats) -> Verdict {
             if closed.len() != g.len() {
                 st.label("accepted_with_orphan_child");
             }
+            if c != expected {
+                return Err(Failure::new(
+                    "disclosures:wrong-claims",
+                    format!("the verifier accepted the list but returned claims other than the view over the genuine disclosures present\n  expected: {}\n  got:      {}\n{}", expected, c, describe()),
+                ));
+            }
             // cross-check of the two reference models: the from-scratch spec processing of
             // (signed payload, list) must give the same view whenever it does not demand rejection
             if let Ok(j) = crate::codec::decode_jwt(&issued.parts.jwt) {
@@ -290,12 +296,6 @@ pub fn check(case: &C03Case, st: &mut Stats) -> Verdict {
                     }
                     crate::spec::SpecOutcome::Ambiguous(_) => {}
                 }
-            }
-            if c != expected {
-                return Err(Failure::new(
-                    "disclosures:wrong-claims",
-                    format!("the verifier accepted the list but returned claims other than the view over the genuine disclosures present\n  expected: {}\n  got:      {}\n{}", expected, c, describe()),
-                ));
             }
             Some(c)
         }
